@@ -1,6 +1,6 @@
 (* C08 -- Waiting primitives wake exactly on notification (local lemmas + refutations).
    Statements restated in full, closed with exact, assumptions printed. *)
-Require Import LV.Base LV.VV LV.VVFacts LV.Path LV.PathSpec LV.Prog LV.Objects LV.Exec LV.Atomic LV.Ops LV.Check LV.Ref LV.Outcome LV.Witness LV.SyncFacts LV.CheckFacts.
+Require Import LV.Base LV.VV LV.VVFacts LV.Path LV.PathSpec LV.Prog LV.Objects LV.Exec LV.Atomic LV.Ops LV.Check LV.Ref LV.Outcome LV.Witness LV.SyncFacts LV.CheckFacts LV.ExecFacts LV.SyncMono.
 
 (* Notify::wait / join complete only with the flag set, consume it, and acquire the notifier's clock *)
 Theorem C08_wait_needs_flag :
@@ -62,6 +62,16 @@ Theorem C08_unpark_transfers :
        (forall j : nat, j <> id -> caus_of e' j = caus_of e j).
 Proof. exact threads_unpark_transfers. Qed.
 Print Assumptions C08_unpark_transfers.
+
+(* GLOBAL: a notification happens-before the wake-up that consumes it, whatever happens in between *)
+Theorem C08_notify_handover_global :
+  forall (e : exec) (a n : nat) (e1 e2 : exec) (b : nat) (e3 : exec),
+       exec_micro e a (MNotifyPost n) = MOk e1 ->
+       steps e1 e2 ->
+       b < length (e_threads e2) ->
+       exec_micro e2 b (MNotifyWait2 n) = MOk e3 -> vle (caus_of e a) (caus_of e3 b).
+Proof. exact notify_handover_global. Qed.
+Print Assumptions C08_notify_handover_global.
 
 (* D5 (repaired): unpark of a thread blocked in join stores a token instead of waking it *)
 Theorem C08_D5_repaired :
